@@ -1262,4 +1262,327 @@ theorem uncg_group_total_aux (N ns ncg nf : Nat) (ims : List Int) (cg data : Lis
   unfold groupCount at hc ⊢
   field_simp
 
+
+/-! ## coarse edges: which pairs, surfaces, distances -/
+
+/-- total surface recorded for the pair `c` -/
+def surfaceOf (acc : List GEdge) (c : Int × Int) : Rat :=
+  (acc.map fun o => if edgeKey o = c then o.surface else 0).sum
+
+/-- the fine edge `e` joins two different retained groups whose ordered pair is `c` -/
+def Contributes (im : List Int) (e : GEdge) (c : Int × Int) : Prop :=
+  im.getD e.i.toNat 0 ≠ im.getD e.j.toNat 0 ∧ im.getD e.i.toNat 0 ≠ -1 ∧ im.getD e.j.toNat 0 ≠ -1 ∧
+  (min (im.getD e.i.toNat 0) (im.getD e.j.toNat 0), max (im.getD e.i.toNat 0) (im.getD e.j.toNat 0)) = c
+
+instance (im : List Int) (e : GEdge) (c : Int × Int) : Decidable (Contributes im e c) := by
+  unfold Contributes; infer_instance
+
+/-- `addEdge` as a function of the two group indices -/
+def addEdgeG (gi gj : Int) (acc : List GEdge) (e : GEdge) : List GEdge :=
+  if gi == gj then acc
+  else if gi == -1 || gj == -1 then acc
+  else if acc.any (fun o => o.i == min gi gj && o.j == max gi gj) then
+    acc.modify (acc.findIdx (fun o => o.i == min gi gj && o.j == max gi gj)) (fun o => { o with surface := o.surface + e.surface })
+  else acc ++ [⟨min gi gj, max gi gj, e.surface, 0⟩]
+
+theorem addEdge_eq_G (im : List Int) (acc : List GEdge) (e : GEdge) :
+    addEdge im acc e = addEdgeG (im.getD e.i.toNat 0) (im.getD e.j.toNat 0) acc e := rfl
+
+def ContributesG (gi gj : Int) (c : Int × Int) : Prop := gi ≠ gj ∧ gi ≠ -1 ∧ gj ≠ -1 ∧ (min gi gj, max gi gj) = c
+
+instance (gi gj : Int) (c : Int × Int) : Decidable (ContributesG gi gj c) := by unfold ContributesG; infer_instance
+
+theorem surfaceOf_append (a b : List GEdge) (c : Int × Int) : surfaceOf (a ++ b) c = surfaceOf a c + surfaceOf b c := by
+  simp [surfaceOf]
+
+theorem surfaceOf_modify (acc : List GEdge) (k : Nat) (hk : k < acc.length) (v : Rat) (c : Int × Int) :
+    surfaceOf (acc.modify k fun o => { o with surface := o.surface + v }) c =
+      surfaceOf acc c + (if edgeKey acc[k] = c then v else 0) := by
+  induction acc generalizing k with
+  | nil => simp at hk
+  | cons a r ih =>
+    cases k with
+    | zero =>
+      simp only [List.modify_cons, surfaceOf, List.map_cons, List.sum_cons, List.getElem_cons_zero, if_true]
+      have : edgeKey { a with surface := a.surface + v } = edgeKey a := rfl
+      rw [this]
+      split <;> ring
+    | succ k =>
+      simp only [List.length_cons, Nat.add_lt_add_iff_right] at hk
+      have := ih k hk
+      simp only [surfaceOf] at this ⊢
+      simp only [List.modify_cons, Nat.succ_ne_zero, if_false, List.map_cons, List.sum_cons, List.getElem_cons_succ]
+      simp only [Nat.add_sub_cancel] at *
+      rw [this]; ring
+
+theorem addEdgeG_surface (gi gj : Int) (acc : List GEdge) (e : GEdge) (c : Int × Int) :
+    surfaceOf (addEdgeG gi gj acc e) c = surfaceOf acc c + (if ContributesG gi gj c then e.surface else 0) := by
+  unfold addEdgeG ContributesG
+  split
+  · rename_i hij
+    have : gi = gj := by simpa using hij
+    simp [this]
+  · rename_i hij
+    have hne : gi ≠ gj := by simpa using hij
+    split
+    · rename_i hd
+      have : gi = -1 ∨ gj = -1 := by simpa using hd
+      rcases this with h | h <;> simp [h]
+    · rename_i hd
+      have hd' : gi ≠ -1 ∧ gj ≠ -1 := by simpa using hd
+      split
+      · rename_i hany
+        have hlt := List.findIdx_lt_length_of_exists (p := fun o : GEdge => o.i == min (gi) (gj) && o.j == max (gi) (gj)) (xs := acc) (by
+          obtain ⟨o, ho, hp⟩ := List.any_eq_true.1 hany
+          exact ⟨o, ho, hp⟩)
+        rw [surfaceOf_modify _ _ hlt]
+        have hkey := List.findIdx_getElem (w := hlt)
+        simp only [Bool.and_eq_true, beq_iff_eq] at hkey
+        have hk2 : edgeKey acc[List.findIdx (fun o : GEdge => o.i == min (gi) (gj) && o.j == max (gi) (gj)) acc] =
+            (min (gi) (gj), max (gi) (gj)) := by
+          simp [edgeKey, hkey.1, hkey.2]
+        rw [hk2]
+        simp [hne, hd'.1, hd'.2]
+      · rw [surfaceOf_append]
+        by_cases hc : (min gi gj, max gi gj) = c <;> simp [surfaceOf, edgeKey, hne, hd'.1, hd'.2, hc]
+
+theorem addEdge_surface (im : List Int) (acc : List GEdge) (e : GEdge) (c : Int × Int) :
+    surfaceOf (addEdge im acc e) c = surfaceOf acc c + (if Contributes im e c then e.surface else 0) := by
+  rw [addEdge_eq_G, addEdgeG_surface]
+  rfl
+
+theorem foldl_addEdge_surface (im : List Int) (es acc : List GEdge) (c : Int × Int) :
+    surfaceOf (es.foldl (addEdge im) acc) c =
+      surfaceOf acc c + (es.map fun e => if Contributes im e c then e.surface else 0).sum := by
+  induction es generalizing acc with
+  | nil => simp
+  | cons e r ih =>
+    simp only [List.foldl_cons, List.map_cons, List.sum_cons]
+    rw [ih, addEdge_surface]; ring
+
+theorem addEdgeG_keys (gi gj : Int) (acc : List GEdge) (e : GEdge) (c : Int × Int) :
+    c ∈ (addEdgeG gi gj acc e).map edgeKey ↔ c ∈ acc.map edgeKey ∨ ContributesG gi gj c := by
+  unfold addEdgeG ContributesG
+  split
+  · rename_i hij
+    have : gi = gj := by simpa using hij
+    simp [this]
+  · rename_i hij
+    have hne : gi ≠ gj := by simpa using hij
+    split
+    · rename_i hd
+      have : gi = -1 ∨ gj = -1 := by simpa using hd
+      rcases this with h | h <;> simp [h]
+    · rename_i hd
+      have hd' : gi ≠ -1 ∧ gj ≠ -1 := by simpa using hd
+      split
+      · rename_i hany
+        have hmk := map_key_modify acc (List.findIdx (fun o : GEdge => o.i == min gi gj && o.j == max gi gj) acc)
+          (fun o => { o with surface := o.surface + e.surface }) (fun o => rfl)
+        rw [hmk]
+        constructor
+        · exact Or.inl
+        · rintro (h | ⟨_, _, _, h⟩)
+          · exact h
+          · obtain ⟨o, ho, hp⟩ := List.any_eq_true.1 hany
+            simp only [Bool.and_eq_true, beq_iff_eq] at hp
+            rw [← h]
+            exact List.mem_map.2 ⟨o, ho, by simp [edgeKey, hp.1, hp.2]⟩
+      · simp only [List.map_append, List.map_cons, List.map_nil, List.mem_append, List.mem_singleton, edgeKey]
+        constructor
+        · rintro (h | h)
+          · exact Or.inl h
+          · exact Or.inr ⟨hne, hd'.1, hd'.2, h.symm⟩
+        · rintro (h | ⟨_, _, _, h⟩)
+          · exact Or.inl h
+          · exact Or.inr h.symm
+
+theorem addEdge_keys (im : List Int) (acc : List GEdge) (e : GEdge) (c : Int × Int) :
+    c ∈ (addEdge im acc e).map edgeKey ↔ c ∈ acc.map edgeKey ∨ Contributes im e c := by
+  rw [addEdge_eq_G, addEdgeG_keys]
+  rfl
+
+theorem foldl_addEdge_keys (im : List Int) (es acc : List GEdge) (c : Int × Int) :
+    c ∈ (es.foldl (addEdge im) acc).map edgeKey ↔ c ∈ acc.map edgeKey ∨ ∃ e ∈ es, Contributes im e c := by
+  induction es generalizing acc with
+  | nil => simp
+  | cons e r ih =>
+    simp only [List.foldl_cons, ih, addEdge_keys, List.mem_cons, exists_eq_or_imp]
+    tauto
+
+/-- the geometry part of an accepted `coarsegrainGrid` call -/
+theorem coarsegrainGrid_geometry {g : GridShape} {h : Rat} {uv ug : Sys} {envs : List Int} {im : List (Option Int)} {sp : CgSpace}
+    (hok : coarsegrainGrid g h uv ug envs im = .ok sp) :
+    sp.edges = ((gridToGraph g h envs).edges.foldl (addEdge (im.filterMap id)) []).map (fun e =>
+      { e with dist := sq (sp.cx.getD e.i.toNat 0 - sp.cx.getD e.j.toNat 0) + sq (sp.cy.getD e.i.toNat 0 - sp.cy.getD e.j.toNat 0)
+                        + sq (sp.cz.getD e.i.toNat 0 - sp.cz.getD e.j.toNat 0) }) ∧
+    sp.counts = scatterAdd (nGroups im) ((im.filterMap id).map fun gI => (gI, (1 : Rat))) ∧
+    sp.cx = List.zipWith (· / ·) (scatterAdd (nGroups im) ((im.filterMap id).zip ((gridCoords g).map fun c => (c.1 : Rat) * h))) sp.counts ∧
+    sp.cy = List.zipWith (· / ·) (scatterAdd (nGroups im) ((im.filterMap id).zip ((gridCoords g).map fun c => (c.2.1 : Rat) * h))) sp.counts ∧
+    sp.cz = List.zipWith (· / ·) (scatterAdd (nGroups im) ((im.filterMap id).zip ((gridCoords g).map fun c => (c.2.2 : Rat) * h))) sp.counts := by
+  unfold coarsegrainGrid at hok
+  split at hok
+  · cases hok
+  · simp only [] at hok
+    split at hok
+    · cases hok
+    · cases hok
+      exact ⟨rfl, rfl, rfl, rfl, rfl⟩
+
+theorem surfaceOf_map_dist (acc : List GEdge) (f : GEdge → Rat) (c : Int × Int) :
+    surfaceOf (acc.map fun e => { e with dist := f e }) c = surfaceOf acc c := by
+  simp only [surfaceOf, List.map_map]
+  rfl
+
+theorem surfaceOf_of_mem (acc : List GEdge) (hnd : (acc.map edgeKey).Nodup) (o : GEdge) (ho : o ∈ acc) :
+    surfaceOf acc (edgeKey o) = o.surface := by
+  induction acc with
+  | nil => simp at ho
+  | cons a r ih =>
+    simp only [List.map_cons, List.nodup_cons] at hnd
+    simp only [surfaceOf, List.map_cons, List.sum_cons]
+    rcases List.mem_cons.1 ho with rfl | ho'
+    · have : (r.map fun x => if edgeKey x = edgeKey o then x.surface else 0) = r.map fun _ => (0 : Rat) := by
+        apply List.map_congr_left
+        intro x hx
+        rw [if_neg]
+        intro hk
+        exact hnd.1 (hk ▸ List.mem_map_of_mem hx)
+      rw [this]; simp
+    · have hne : edgeKey a ≠ edgeKey o := fun hk => hnd.1 (hk ▸ List.mem_map_of_mem ho')
+      rw [if_neg hne]
+      have := ih hnd.2 ho'
+      simp only [surfaceOf] at this
+      rw [this]; ring
+
+/-- every fine edge of the grid's graph has surface `h²` and length `h` -/
+theorem gridToGraph_edge_geometry (g : GridShape) (h : Rat) (envs : List Int) :
+    ∀ e ∈ (gridToGraph g h envs).edges, e.surface = h * h ∧ e.dist = h := by
+  intro e he
+  simp only [gridToGraph, List.mem_append, List.mem_flatMap, faceEdges, periodicEdges] at he
+  rcases he with ⟨c, _, hc⟩ | he
+  · obtain ⟨x, y, z⟩ := c
+    simp only [List.mem_append] at hc
+    rcases hc with (hc | hc) | hc <;>
+    · split at hc
+      · simp only [List.mem_singleton] at hc; subst hc; exact ⟨rfl, rfl⟩
+      · simp at hc
+  · rcases he with (he | he) | he <;>
+    · split at he
+      · simp only [List.mem_flatMap, List.mem_map] at he
+        obtain ⟨_, _, _, _, rfl⟩ := he
+        exact ⟨rfl, rfl⟩
+      · simp at he
+
+theorem sum_ite_const {α} (l : List α) (P : α → Prop) [DecidablePred P] (v : Rat) :
+    (l.map fun a => if P a then v else 0).sum = (l.countP (fun a => decide (P a)) : Rat) * v := by
+  induction l with
+  | nil => simp
+  | cons a r ih =>
+    simp only [List.map_cons, List.sum_cons, ih, List.countP_cons]
+    by_cases h : P a
+    · simp [h]; ring
+    · simp [h]
+
+theorem cg_edge_iff_aux {g : GridShape} {h : Rat} {uv ug : Sys} {envs : List Int} {im : List (Option Int)} {sp : CgSpace}
+    (hok : coarsegrainGrid g h uv ug envs im = .ok sp) (c : Int × Int) :
+    c ∈ sp.edges.map edgeKey ↔ ∃ e ∈ (gridToGraph g h envs).edges, Contributes (im.filterMap id) e c := by
+  rw [coarsegrainGrid_edges hok, foldl_addEdge_keys]
+  simp
+
+theorem cg_surface_aux {g : GridShape} {h : Rat} {uv ug : Sys} {envs : List Int} {im : List (Option Int)} {sp : CgSpace}
+    (hok : coarsegrainGrid g h uv ug envs im = .ok sp) (o : GEdge) (ho : o ∈ sp.edges) :
+    o.surface = ((gridToGraph g h envs).edges.countP (fun e => decide (Contributes (im.filterMap id) e (edgeKey o))) : Rat) * (h * h) := by
+  have hnd := (cg_edges_ok hok).2
+  rw [← surfaceOf_of_mem sp.edges hnd o ho]
+  rw [(coarsegrainGrid_geometry hok).1, surfaceOf_map_dist, foldl_addEdge_surface]
+  simp only [surfaceOf, List.map_nil, List.sum_nil, zero_add]
+  rw [← sum_ite_const]
+  congr 1
+  apply List.map_congr_left
+  intro e he
+  rw [(gridToGraph_edge_geometry g h envs e he).1]
+
+theorem cg_distance_aux {g : GridShape} {h : Rat} {uv ug : Sys} {envs : List Int} {im : List (Option Int)} {sp : CgSpace}
+    (hok : coarsegrainGrid g h uv ug envs im = .ok sp) (o : GEdge) (ho : o ∈ sp.edges) :
+    o.dist = sq (sp.cx.getD o.i.toNat 0 - sp.cx.getD o.j.toNat 0) + sq (sp.cy.getD o.i.toNat 0 - sp.cy.getD o.j.toNat 0)
+      + sq (sp.cz.getD o.i.toNat 0 - sp.cz.getD o.j.toNat 0) := by
+  rw [(coarsegrainGrid_geometry hok).1] at ho
+  obtain ⟨e, _, rfl⟩ := List.mem_map.1 ho
+  rfl
+
+theorem cg_centroid_aux {g : GridShape} {h : Rat} {uv ug : Sys} {envs : List Int} {im : List (Option Int)} {sp : CgSpace}
+    (hok : coarsegrainGrid g h uv ug envs im = .ok sp) (k : Nat) (hk : k < nGroups im) :
+    sp.cx[k]? = some (slotSum k ((im.filterMap id).zip ((gridCoords g).map fun c => (c.1 : Rat) * h)) /
+                      slotSum k ((im.filterMap id).map fun gI => (gI, (1 : Rat)))) ∧
+    sp.cy[k]? = some (slotSum k ((im.filterMap id).zip ((gridCoords g).map fun c => (c.2.1 : Rat) * h)) /
+                      slotSum k ((im.filterMap id).map fun gI => (gI, (1 : Rat)))) ∧
+    sp.cz[k]? = some (slotSum k ((im.filterMap id).zip ((gridCoords g).map fun c => (c.2.2 : Rat) * h)) /
+                      slotSum k ((im.filterMap id).map fun gI => (gI, (1 : Rat)))) := by
+  obtain ⟨_, hc, hx, hy, hz⟩ := coarsegrainGrid_geometry hok
+  rw [hx, hy, hz, hc]
+  simp [List.getElem?_zipWith, scatterAdd_get _ _ _ hk]
+
+theorem mem_gridCoords (g : GridShape) (x y z : Nat) : (x, y, z) ∈ gridCoords g ↔ x < g.w ∧ y < g.h ∧ z < g.d := by
+  simp only [gridCoords, List.mem_flatMap, List.mem_map, List.mem_range, Prod.mk.injEq]
+  constructor
+  · rintro ⟨z', hz, y', hy, x', hx, rfl, rfl, rfl⟩
+    exact ⟨hx, hy, hz⟩
+  · rintro ⟨hx, hy, hz⟩
+    exact ⟨z, hz, y, hy, x, hx, rfl, rfl, rfl⟩
+
+/-- `get_cell_index((x, y, z))` inside the grid -/
+theorem gci_inside (g : GridShape) (x y z : Nat) (hx : x < g.w) (hy : y < g.h) (hz : z < g.d) :
+    gci g x y z = ((x + y * g.w + z * g.w * g.h : Nat) : Int) := by
+  have hb : withinBoundsArr (g.w : Int) g.h g.d x y z = true := by
+    simp [withinBoundsArr, hx, hy, hz]
+  simp only [gci, pyCellIndexOfCoords, hb, if_true, cellIndexArr]
+  push_cast
+  ring
+
+/-- the fine edges of a reflecting grid are exactly the pairs of cells sharing a face, each listed once
+(from the cell with the smaller coordinate), with surface `h²` and length `h` -/
+theorem mem_fine_edges (g : GridShape) (h : Rat) (envs : List Int) (hrefl : (g.px || g.py || g.pz) = false) (e : GEdge) :
+    e ∈ (gridToGraph g h envs).edges ↔ ∃ x y z, x < g.w ∧ y < g.h ∧ z < g.d ∧
+      ((x + 1 < g.w ∧ e = ⟨gci g x y z, gci g (x + 1) y z, h * h, h⟩) ∨
+       (y + 1 < g.h ∧ e = ⟨gci g x y z, gci g x (y + 1) z, h * h, h⟩) ∨
+       (z + 1 < g.d ∧ e = ⟨gci g x y z, gci g x y (z + 1), h * h, h⟩)) := by
+  simp only [Bool.or_eq_false_iff] at hrefl
+  obtain ⟨⟨h1, h2⟩, h3⟩ := hrefl
+  simp only [gridToGraph, periodicEdges, h1, h2, h3, Bool.false_eq_true, if_false, List.append_nil, List.mem_flatMap]
+  constructor
+  · rintro ⟨⟨x, y, z⟩, hc, he⟩
+    obtain ⟨hx, hy, hz⟩ := (mem_gridCoords g x y z).1 hc
+    refine ⟨x, y, z, hx, hy, hz, ?_⟩
+    simp only [faceEdges, List.mem_append] at he
+    rcases he with (he | he) | he
+    · split at he
+      · rename_i hlt
+        simp only [List.mem_singleton] at he
+        exact Or.inl ⟨by omega, by rw [he]⟩
+      · simp at he
+    · split at he
+      · rename_i hlt
+        simp only [List.mem_singleton] at he
+        exact Or.inr (Or.inl ⟨by omega, by rw [he]⟩)
+      · simp at he
+    · split at he
+      · rename_i hlt
+        simp only [List.mem_singleton] at he
+        exact Or.inr (Or.inr ⟨by omega, by rw [he]⟩)
+      · simp at he
+  · rintro ⟨x, y, z, hx, hy, hz, hcase⟩
+    refine ⟨(x, y, z), (mem_gridCoords g x y z).2 ⟨hx, hy, hz⟩, ?_⟩
+    simp only [faceEdges, List.mem_append]
+    rcases hcase with ⟨hlt, rfl⟩ | ⟨hlt, rfl⟩ | ⟨hlt, rfl⟩
+    · left; left
+      rw [if_pos (by omega)]
+      simp
+    · left; right
+      rw [if_pos (by omega)]
+      simp
+    · right
+      rw [if_pos (by omega)]
+      simp
+
 end Strengths
